@@ -5800,9 +5800,15 @@ impl BytecodeVM {
                     );
                 }
 
-                // Handle __proto__ special property - return prototype
+                // Handle __proto__ special property - return prototype, unless the object
+                // has an own member of that name (e.g. created by JSON.parse), which
+                // shadows Object.prototype's accessor
                 if let JsValue::String(k) = key
                     && k.as_str() == "__proto__"
+                    && !obj_ref
+                        .borrow()
+                        .properties
+                        .contains_key(&PropertyKey::String(k.cheap_clone()))
                 {
                     return Ok(Guarded::unguarded(
                         obj_ref
@@ -5917,9 +5923,14 @@ impl BytecodeVM {
                     return Ok(());
                 }
 
-                // Handle __proto__ special property - set prototype
+                // Handle __proto__ special property - set prototype (an own member of
+                // that name is an ordinary data property and is assigned below)
                 if let JsValue::String(k) = key
                     && k.as_str() == "__proto__"
+                    && !obj_ref
+                        .borrow()
+                        .properties
+                        .contains_key(&PropertyKey::String(k.cheap_clone()))
                 {
                     match &value {
                         JsValue::Object(proto) => {
